@@ -15,7 +15,7 @@ RULE = ("dimension lists as C02 (0..4 dims, one/two/three-axis, any commons, inf
         "weights none / scalar / array / (values, validity), zeros included; both missing-value policies; dense arrays "
         "handed to xcube as int64 and as the unsigned dtype to_array produces. Dyadic stream (k/8 values): every float64 "
         "operation of the real code is exact, compared EXACTLY with the direct Fraction group-by and with the Lean model; "
-        "wide stream: 1-2 dims whose extent / product of extents straddles 2^8 (thorough: 2^16); general stream (arbitrary doubles): tolerance 1e-9 x grand total, missing cells exactly; a mean over a cell whose positive weights add up to less than 1e-8 (known finding F03d); cells of exactly 2^16 valid or missing rows (thorough: +-1, 2^17 .. 2^18); every third case hands the same fact / weights objects to every call; every fourth case one long-lived ccube object serves all aggregates while its dimensions are re-normalised in place between them. Non-trivial = >=1 dim and "
+        "wide stream: 1-2 dims whose extent / product of extents straddles 2^8 (thorough: 2^16), plus the fixed extents (300,), (300,3), (3,300), (257,2), (2,129) on every run; general stream (arbitrary doubles): tolerance 1e-9 x grand total, missing cells exactly; a mean over a cell whose positive weights add up to less than 1e-8 (known finding F03d); cells of exactly 2^16 valid or missing rows (thorough: +-1, 2^17 .. 2^18); every third case hands the same fact / weights objects to every call; every fourth case one long-lived ccube object serves all aggregates while its dimensions are re-normalised in place between them. Non-trivial = >=1 dim and "
         ">=1 row; distinct by (dims, fact, weights, policy, aggregate)")
 ASSUMPTIONS = ["float64 sums/products of the dyadic stream are exact (bounded magnitude, N <= 40)",
                "float rounding on the general stream is within 1e-9 of the grand total"]
@@ -267,6 +267,12 @@ def run(ctx):
     for it in range(ctx.n(3, 48)):   # extents straddling the narrow coordinate types the array cube picks (2^8; thorough: 2^16)
         case = A.gen_case(ctx.rng, wide="u16" if (ctx.tier == "thorough" and it % 8 == 7) else "u8")
         ctx.hit("wide_extents")
+        check(ctx, case, reqs, pend)
+    # the same, deterministically: a wide dimension first / last / alone, so that every run meets a dimension whose own
+    # extent exceeds 2^8 while its stride (the product of the LATER extents) does not, and the other way round
+    for ext in ((300,), (300, 3), (3, 300), (257, 2), (2, 129)):
+        case = A.gen_case(ctx.rng, wide="u8", wide_extents=ext)
+        ctx.hit("wide_extents_fixed")
         check(ctx, case, reqs, pend)
     big_cells(ctx)
     tiny_weights(ctx)
